@@ -254,6 +254,72 @@ func (c *Check) requireOnPaths(rule, inst string, fn *ssa.Function, rets []*ssa.
 	return m
 }
 
+// requireWhen: on every path to a nil-error return on which the condition `holds` becomes true (it is established by
+// taking a conditional edge: holds(facts before the branch + the edge's atom) but not holds(facts before)), a call
+// matching `match` is passed after that edge. Unlike a selection of return blocks by their dominating facts this is
+// indifferent to how the returns are laid out (early return vs nested if with one shared return).
+func (c *Check) requireWhen(rule, inst string, fn *ssa.Function, holds func([]Atom) bool, match func(ssa.CallInstruction) bool, detail string) []ssa.CallInstruction {
+	var m []ssa.CallInstruction
+	for _, call := range callsIn(fn, false) {
+		c.CallSites++
+		if match(call) {
+			m = append(m, call)
+		}
+	}
+	ok := len(m) > 0
+	why := detail
+	pos := fn.Pos()
+	if !ok {
+		why = detail + " (no such call in " + fnName(fn) + ")"
+	} else {
+		pred := passPred(m)
+		rets := successReturns(fn)
+		nEdges := 0
+		check := func(start *ssa.BasicBlock) {
+			first := start.Instrs[0]
+			if pred(first) || transparentPass(first, pred, 0) {
+				return
+			}
+			for _, r := range rets {
+				if first == ssa.Instruction(r) || ((start == r.Block() || blockReaches(start, r.Block())) && !mustPassFrom(fn, first, r, pred)) {
+					ok = false
+					pos = r.Pos()
+					why = detail + " (the nil-error return at " + c.L.Pos(r.Pos()) + " is reachable on that path without it)"
+				}
+			}
+		}
+		if holds(nil) {
+			nEdges++
+			check(fn.Blocks[0])
+		} else {
+			for _, b := range fn.Blocks {
+				ifi, isIf := b.Instrs[len(b.Instrs)-1].(*ssa.If)
+				if !isIf {
+					continue
+				}
+				before := factsAt(b)
+				if holds(before) {
+					continue
+				}
+				for idx := 0; idx < 2; idx++ {
+					a := condAtom(ifi.Cond, idx == 0)
+					a.If = ifi
+					if holds(append(append([]Atom{}, before...), a)) {
+						nEdges++
+						check(b.Succs[idx])
+					}
+				}
+			}
+		}
+		if nEdges == 0 {
+			ok = false
+			why = "the condition under which this is required is never established in " + fnName(fn)
+		}
+	}
+	c.Ob(rule, inst, pos, ok, why)
+	return m
+}
+
 // retsWhere: success returns of fn filtered by a predicate on their dominating facts.
 func retsWhere(fn *ssa.Function, keep func(facts []Atom) bool) []*ssa.Return {
 	var out []*ssa.Return
@@ -297,6 +363,26 @@ func (l *Loaded) constArgIs(v ssa.Value, rel, name string) bool {
 	}
 	want, _ := constantInt2(l, rel, name)
 	return k == want
+}
+
+// constArgIn: every value v can take (constant or phi of constants) is one of the named constants.
+func (l *Loaded) constArgIn(v ssa.Value, rel string, names ...string) bool {
+	cs := constSet(v, map[ssa.Value]bool{})
+	if len(cs) == 0 {
+		return false
+	}
+	for k := range cs {
+		ok := false
+		for _, n := range names {
+			if want, _ := constantInt2(l, rel, n); want == k {
+				ok = true
+			}
+		}
+		if !ok {
+			return false
+		}
+	}
+	return true
 }
 
 func constantInt2(l *Loaded, rel, name string) (int64, bool) {
@@ -447,7 +533,7 @@ func (c *Check) handlerEffects(kinds map[string]*recKind) {
 		}
 		for _, x := range lost {
 			a := userArgs(x)
-			if vals, sites, ok := appendSources(fn, a[0]); ok {
+			if vals, sites, ok := appendSources(x.Parent(), a[0]); ok {
 				for i, v := range vals {
 					// the only bids not appended: the winner and non-open ones -> at the append site facts are exactly
 					// neq(Equals(winner)) and eq(State, open); any other dominating condition narrows the set
@@ -482,8 +568,7 @@ func (c *Check) handlerEffects(kinds map[string]*recKind) {
 		c.requireOnPaths("R2", h+": escrow payment closed", fn, rets, func(x ssa.CallInstruction) bool { return callIs(x, "PaymentClose", "EscrowKeeper") }, "payment stream stays open")
 		// new order iff the group is open: every success return not dominated by group.State != open passes CreateOrder
 		gopen, _ := constantInt2(l, "x/deployment/types", "GroupOpen")
-		open := retsWhere(fn, func(f []Atom) bool { return !hasStateFact(f, "neq", "OnLeaseClosed(", gopen) })
-		for _, call := range c.requireOnPaths("R2", h+": new order when the group is still open", fn, open, func(x ssa.CallInstruction) bool { return callIs(x, "CreateOrder", "", "types.GroupID") }, "an open group of an active deployment is left without an order") {
+		for _, call := range c.requireWhen("R2", h+": new order when the group is still open", fn, func(f []Atom) bool { return hasStateFact(f, "eq", "OnLeaseClosed(", gopen) }, func(x ssa.CallInstruction) bool { return callIs(x, "CreateOrder", "", "types.GroupID") }, "an open group of an active deployment is left without an order") {
 			c.Ob("R2", h+": new order only for an open group", call.Pos(), hasStateFact(factsAt(call.Block()), "eq", "OnLeaseClosed(", gopen), "order created although the group is not open")
 		}
 	}
@@ -493,17 +578,17 @@ func (c *Check) handlerEffects(kinds map[string]*recKind) {
 		c.Analysed(fnName(fn))
 		h := "CloseBid"
 		bopen, _ := constantInt2(l, mk, "BidOpen")
-		openRets := retsWhere(fn, func(f []Atom) bool { return hasStateFact(f, "eq", "GetBid(", bopen) })
-		actRets := retsWhere(fn, func(f []Atom) bool { return !hasStateFact(f, "eq", "GetBid(", bopen) })
-		c.requireOnPaths("R2", h+" (open bid): bid -> closed", fn, openRets, func(x ssa.CallInstruction) bool { return callIs(x, "OnBidClosed", "IKeeper", "types.Bid") }, "open bid not closed")
-		c.requireOnPaths("R2", h+" (matched bid): group -> paused", fn, actRets, func(x ssa.CallInstruction) bool { return callIs(x, "OnBidClosed", "DeploymentKeeper", "types.GroupID") }, "group stays open without an order")
-		for _, call := range c.requireOnPaths("R2", h+" (matched bid): lease -> closed", fn, actRets, func(x ssa.CallInstruction) bool { return callIs(x, "OnLeaseClosed", "IKeeper", "types.Lease") }, "lease stays active") {
+		openRets := func(f []Atom) bool { return hasStateFact(f, "eq", "GetBid(", bopen) }
+		actRets := func(f []Atom) bool { return hasStateFact(f, "neq", "GetBid(", bopen) }
+		c.requireWhen("R2", h+" (open bid): bid -> closed", fn, openRets, func(x ssa.CallInstruction) bool { return callIs(x, "OnBidClosed", "IKeeper", "types.Bid") }, "open bid not closed")
+		c.requireWhen("R2", h+" (matched bid): group -> paused", fn, actRets, func(x ssa.CallInstruction) bool { return callIs(x, "OnBidClosed", "DeploymentKeeper", "types.GroupID") }, "group stays open without an order")
+		for _, call := range c.requireWhen("R2", h+" (matched bid): lease -> closed", fn, actRets, func(x ssa.CallInstruction) bool { return callIs(x, "OnLeaseClosed", "IKeeper", "types.Lease") }, "lease stays active") {
 			a := userArgs(call)
 			c.Ob("R2", h+": lease closed with state LeaseClosed", call.Pos(), len(a) == 2 && l.constArgIs(a[1], mk, "LeaseClosed"), "")
 		}
-		c.requireOnPaths("R2", h+" (matched bid): bid -> closed", fn, actRets, func(x ssa.CallInstruction) bool { return callIs(x, "OnBidClosed", "IKeeper", "types.Bid") }, "bid stays matched")
-		c.requireOnPaths("R2", h+" (matched bid): order -> closed", fn, actRets, func(x ssa.CallInstruction) bool { return callIs(x, "OnOrderClosed", "", "types.Order") }, "order stays matched")
-		c.requireOnPaths("R2", h+" (matched bid): escrow payment closed", fn, actRets, func(x ssa.CallInstruction) bool { return callIs(x, "PaymentClose", "EscrowKeeper") }, "payment stream stays open")
+		c.requireWhen("R2", h+" (matched bid): bid -> closed", fn, actRets, func(x ssa.CallInstruction) bool { return callIs(x, "OnBidClosed", "IKeeper", "types.Bid") }, "bid stays matched")
+		c.requireWhen("R2", h+" (matched bid): order -> closed", fn, actRets, func(x ssa.CallInstruction) bool { return callIs(x, "OnOrderClosed", "", "types.Order") }, "order stays matched")
+		c.requireWhen("R2", h+" (matched bid): escrow payment closed", fn, actRets, func(x ssa.CallInstruction) bool { return callIs(x, "PaymentClose", "EscrowKeeper") }, "payment stream stays open")
 	}
 	// -- deployment handlers
 	dk := "x/deployment/types"
@@ -563,10 +648,10 @@ func (c *Check) handlerEffects(kinds map[string]*recKind) {
 		c.Analysed(fnName(fn))
 		dact, _ := constantInt2(l, dk, "DeploymentActive")
 		// the acting path: deployment found and active
-		rets := retsWhere(fn, func(f []Atom) bool { return hasStateFact(f, "eq", "GetDeployment(", dact) })
-		c.requireOnPaths("R2", "account-closed hook: deployment -> closed", fn, rets, func(x ssa.CallInstruction) bool { return callIs(x, "CloseDeployment", "", "types.Deployment") }, "deployment stays active although its escrow account is closed")
-		c.requireOnPaths("R2", "account-closed hook: all groups enumerated", fn, rets, func(x ssa.CallInstruction) bool { return callIs(x, "GetGroups", "", "types.DeploymentID") }, "")
-		og := c.requireOnPaths("R2", "account-closed hook: groups closed", fn, nil2(rets), func(x ssa.CallInstruction) bool { return callIs(x, "OnCloseGroup", "", "types.Group") }, "groups stay open under a closed deployment")
+		rets := func(f []Atom) bool { return hasStateFact(f, "eq", "GetDeployment(", dact) }
+		c.requireWhen("R2", "account-closed hook: deployment -> closed", fn, rets, func(x ssa.CallInstruction) bool { return callIs(x, "CloseDeployment", "", "types.Deployment") }, "deployment stays active although its escrow account is closed")
+		c.requireWhen("R2", "account-closed hook: all groups enumerated", fn, rets, func(x ssa.CallInstruction) bool { return callIs(x, "GetGroups", "", "types.DeploymentID") }, "")
+		og := c.requireWhen("R2", "account-closed hook: groups closed", fn, rets, func(x ssa.CallInstruction) bool { return callIs(x, "OnCloseGroup", "", "types.Group") }, "groups stay open under a closed deployment")
 		for _, call := range og {
 			// guard is exactly ValidateClosable()==nil
 			n := 0
@@ -587,17 +672,17 @@ func (c *Check) handlerEffects(kinds map[string]*recKind) {
 			gi, _ := constantInt2(l, dk, "GroupInsufficientFunds")
 			c.Ob("R2", "account-closed hook: groups end closed or insufficient_funds", call.Pos(), cs != nil && len(cs) == 2 && cs[gc] && cs[gi], "group state argument "+Sym(a[1]))
 		}
-		c.requireFollows("R2", "account-closed hook: every group closed by the hook is cascaded to the market", fn, rets,
+		c.requireFollows("R2", "account-closed hook: every group closed by the hook is cascaded to the market", fn, successReturns(fn),
 			func(x ssa.CallInstruction) bool { return callIs(x, "OnCloseGroup", "", "types.Group") },
 			func(x ssa.CallInstruction) bool { return callIs(x, "OnGroupClosed", "", "types.GroupID") },
 			"orders/bids/leases stay live under a group the hook closed")
-		c.requireOnPaths("R2", "account-closed hook: market cascade per group", fn, nil2(rets), func(x ssa.CallInstruction) bool { return callIs(x, "OnGroupClosed", "", "types.GroupID") }, "orders/bids/leases stay live under a closed deployment")
+		c.requireWhen("R2", "account-closed hook: market cascade per group", fn, rets, func(x ssa.CallInstruction) bool { return callIs(x, "OnGroupClosed", "", "types.GroupID") }, "orders/bids/leases stay live under a closed deployment")
 	}
 	{
 		fn := l.Func("x/market/hooks", "hooks", "OnEscrowPaymentClosed")
 		c.Analysed(fnName(fn))
 		bact, _ := constantInt2(l, mk, "BidActive")
-		rets := retsWhere(fn, func(f []Atom) bool {
+		rets := func(f []Atom) bool {
 			if !hasStateFact(f, "eq", "GetBid(", bact) {
 				return false
 			}
@@ -611,12 +696,12 @@ func (c *Check) handlerEffects(kinds map[string]*recKind) {
 				}
 			}
 			return nfound == 2
-		})
-		c.requireOnPaths("R2", "payment-closed hook: order -> closed", fn, rets, func(x ssa.CallInstruction) bool { return callIs(x, "OnOrderClosed", "", "types.Order") }, "order stays matched after its payment closed")
-		c.requireOnPaths("R2", "payment-closed hook: bid -> closed", fn, rets, func(x ssa.CallInstruction) bool { return callIs(x, "OnBidClosed", "", "types.Bid") }, "bid stays matched after its payment closed")
-		for _, call := range c.requireOnPaths("R2", "payment-closed hook: lease -> closed/insufficient_funds", fn, rets, func(x ssa.CallInstruction) bool { return callIs(x, "OnLeaseClosed", "", "types.Lease") }, "lease stays active after its payment closed") {
+		}
+		c.requireWhen("R2", "payment-closed hook: order -> closed", fn, rets, func(x ssa.CallInstruction) bool { return callIs(x, "OnOrderClosed", "", "types.Order") }, "order stays matched after its payment closed")
+		c.requireWhen("R2", "payment-closed hook: bid -> closed", fn, rets, func(x ssa.CallInstruction) bool { return callIs(x, "OnBidClosed", "", "types.Bid") }, "bid stays matched after its payment closed")
+		for _, call := range c.requireWhen("R2", "payment-closed hook: lease -> closed/insufficient_funds", fn, rets, func(x ssa.CallInstruction) bool { return callIs(x, "OnLeaseClosed", "", "types.Lease") }, "lease stays active after its payment closed") {
 			a := userArgs(call)
-			c.Ob("R2", "payment-closed hook: lease end state is a constant close state", call.Pos(), l.constArgIs(a[1], mk, "LeaseClosed") || l.constArgIs(a[1], mk, "LeaseInsufficientFunds"), Sym(a[1]))
+			c.Ob("R2", "payment-closed hook: lease end state is a constant close state", call.Pos(), l.constArgIn(a[1], mk, "LeaseClosed", "LeaseInsufficientFunds"), Sym(a[1]))
 		}
 	}
 	c.Floor("R2", 40)
@@ -922,7 +1007,11 @@ func (c *Check) cascadeCallbacks() {
 	subjects := []*ssa.Function{l.msgServerMethod("x/market/handler", "CreateLease"), l.Func("x/market/keeper", "Keeper", "OnGroupClosed")}
 	n := 0
 	for _, fn := range subjects {
-		for _, g := range fnAndClosures(fn)[1:] {
+		for _, g := range fnAndClosuresDeep(fn)[1:] {
+			// iterator callbacks: func(record) bool
+			if res := g.Signature.Results(); g.Parent() == nil || res.Len() != 1 || res.At(0).Type().String() != "bool" {
+				continue
+			}
 			n++
 			ok := true
 			for _, b := range g.Blocks {
